@@ -226,6 +226,11 @@ def _(c):
         shutil.rmtree(tmp, ignore_errors=True)
 
 
+def parent_of(k, i):
+    """centre of the kernel's segment whose target is body i"""
+    return {s_.target: s_.center for s_ in k.segments}[i]
+
+
 def _one_hour():
     from datetime import timedelta
     return timedelta(hours=1)
@@ -311,3 +316,27 @@ def _(c):
         direct = np.asarray(jpl.get_orbit(name(a), p_.date), dtype=float)
         ok_it = ok_it and bool(np.linalg.norm(np.asarray(p_, dtype=float)[:3] - direct[:3]) <= 1e-3 + 1e-13 * np.linalg.norm(direct[:3]))
     c.ensure("iterated_states_are_for_their_dates", ok_it)
+    # "for every date in the span of the kernel": instants a few seconds inside either end of the kernel's span, handed over as UTC dates (the span is in TDB: the UTC
+    # reading of the first instants lies about a minute BEFORE the TDB number the span starts at)
+    kk = SPK.open("/repo/tests/data/jpl/de403_2000-2020.bsp")
+    try:
+        seg = kk[parent_of(kk, a), a] if a != 0 else None
+        jd0, jd1 = (seg.start_jd, seg.end_jd) if seg is not None else (None, None)
+    finally:
+        kk.close()
+    if jd0 is not None:
+        ok_edge = True
+        for jd_tdb in (jd0 + 10.0 / 86400, jd0 + 50.0 / 86400, jd1 - 10.0 / 86400):
+            d_utc = Date(jd_tdb - 2400000.5, scale="TDB").change_scale("UTC")
+            try:
+                g = np.asarray(jpl.get_orbit(name(a), d_utc), dtype=float)
+            except Exception:
+                ok_edge = False
+                break
+            kk = SPK.open("/repo/tests/data/jpl/de403_2000-2020.bsp")
+            try:
+                pp, vv = kk[parent_of(kk, a), a].compute_and_differentiate(d_utc.change_scale("TDB").jd)
+            finally:
+                kk.close()
+            ok_edge = ok_edge and bool(np.linalg.norm(np.abs(g[:3]) - np.abs(np.asarray(pp) * 1000)) <= 1e-3 + 1e-13 * np.linalg.norm(pp) * 1000)
+        c.ensure("served_up_to_the_ends_of_the_span", ok_edge)
